@@ -46,6 +46,17 @@ func (hourEngine) Gen(rng *rand.Rand, tier string, i int) any {
 	return &hourCase{Seed: rng.Int63(), Scen: 150}
 }
 
+// idleEngine is the same workload with a wait of 75 s: nothing has lapsed (lifetimes are an hour), so the
+// second history is judged by the ordinary model - whatever a client was told it holds, it still holds after
+// a minute of silence, also when it only ever sent SOLICITs and the pool has been full meanwhile.
+type idleEngine struct{ hourEngine }
+
+func init() { register("prefixidle", idleEngine{}) }
+
+func (idleEngine) Gen(rng *rand.Rand, tier string, i int) any {
+	return &hourCase{Seed: rng.Int63(), Scen: 60, WaitS: 75}
+}
+
 func (hourEngine) Decode(raw json.RawMessage) (any, error) {
 	var c hourCase
 	err := json.Unmarshal(raw, &c)
